@@ -191,6 +191,7 @@ type nilAnalysis struct {
 	mayNilRet map[*ssa.Function]bool
 	assumed   map[string]string
 	usedAssum map[string]bool
+	pinned    map[string]bool // "<function name>/<ssa name>": facts about this value are kept although it is dead
 	validated bool
 	entry     map[*ssa.Function]map[*ssa.BasicBlock]nstate // memo: state at block entry
 	inProg    map[*ssa.Function]bool
@@ -1320,6 +1321,9 @@ func (a *nilAnalysis) pruneDead(fn *ssa.Function, at *ssa.BasicBlock, st nstate)
 	isLive := func(name string) bool {
 		if r, ok := liveCache[name]; ok {
 			return r
+		}
+		if a.pinned[fn.Name()+"/"+name] {
+			return true
 		}
 		v, ok := li.byName[name]
 		res := true
